@@ -41,7 +41,11 @@ TermTag(o) == IF PreCx(o) THEN "context-ended-before-call"
               ELSE IF HasCx(o) THEN "context-end"
               ELSE IF RespThenErr(o) THEN "response-then-error"
               ELSE "plain"
-HdrTag(o) == IF HdrSetUnsent(o) /\ (~HasCx(o) \/ RetI(o) < CxI(o)) THEN "set-but-no-message-sent"
+LateOps(o) == HasCx(o) /\ \E i \in CxI(o)..Len(o.steps) : o.steps[i].c = "-" /\ o.steps[i].s \in {"sethdr", "sendhdr", "send", "settrl"}
+LateSendHdr(o) == HasCx(o) /\ \E i \in CxI(o)..Len(o.steps) : o.steps[i].c = "-" /\ o.steps[i].s = "sendhdr"
+HdrTag(o) == IF LateSendHdr(o) THEN "handler-sent-header-after-context-end" ELSE
+             IF LateOps(o) THEN "handler-continued-after-context-end" ELSE
+             IF HdrSetUnsent(o) /\ (~HasCx(o) \/ RetI(o) < CxI(o)) THEN "set-but-no-message-sent"
              ELSE IF HasCx(o) THEN "context-end" ELSE "plain"
 TrlTag(o) == IF TrlAfterResp(o) THEN "set-after-response" ELSE IF RespThenErr(o) THEN "response-then-error"
              ELSE IF HasCx(o) THEN "context-end" ELSE "plain"
